@@ -122,6 +122,10 @@ def cases():
                 yield dict(name="redef-same-var-multi-untyped", d=d, u=u, expect=False, src=render({d: ["x := 5", "var x, zz9 = 6, 7"]}))
                 yield dict(name="redef-same-short-multi", d=d, u=u, expect=True, src=render({d: ["x := 5", "x, zz9 := 6, 7", "print(x, zz9)"]}))
                 yield dict(name="redef-same-short-multi-none-new", d=d, u=u, expect=False, src=render({d: ["x, zz9 := 6, 7", "x, zz9 := 1, 2"]}))
+                yield dict(name="redef-same-range-value", d=d, u=u, expect=False, src=render({d: ["x := 5", "for k9, x := range []int{1} {", "}"]}))
+                yield dict(name="redef-same-range-index", d=d, u=u, expect=False, src=render({d: ["x := 5", "for x, v9 := range []int{1} {", "}"]}))
+                yield dict(name="redef-same-range-both", d=d, u=u, expect=False, src=render({d: ["for k9, k9 := range []int{1} {", "}"]}))
+                yield dict(name="redef-same-for-variable", d=d, u=u, expect=False, src=render({d: ["x := 5", "for x := 0; x < 1; x++ {", "}"]}))
                 yield dict(name="redef-same-var-multi-all-new", d=d, u=u, expect=True, src=render({d: ["var x, zz9 int = 6, 7", "print(x, zz9)"]}))
                 continue
             ok = visible(d, u)
@@ -133,6 +137,12 @@ def cases():
             yield dict(name="redef-var-multi", d=d, u=u, expect=not visible(first, second), src=render({d: ["x := 5"], u: ["var x, zz9 int = 6, 7"]}))
             yield dict(name="redef-var-multi-last", d=d, u=u, expect=not visible(first, second), src=render({d: ["x := 5"], u: ["var zz9, x = 6, 7"]}))
             # `x, zz9 := 6, 7` after a visible x assigns to it; before it, the later single definition is the redefinition
+            # the variables of a range header are definitions too (round 9: C07-A, the value variable not checked against visible names)
+            rexp = (not visible(d, u)) if INFO.order[d] < INFO.order[u] else True
+            yield dict(name="redef-range-value", d=d, u=u, expect=rexp, src=render({d: ["x := 5"], u: ["for k9, x := range []int{1} {", "\tprint(k9, x)", "}"]}))
+            yield dict(name="redef-range-index", d=d, u=u, expect=rexp, src=render({d: ["x := 5"], u: ["for x, v9 := range []int{1} {", "\tprint(x, v9)", "}"]}))
+            yield dict(name="redef-range-index-only", d=d, u=u, expect=rexp, src=render({d: ["x := 5"], u: ["for x := range \"ab\" {", "\tprint(x)", "}"]}))
+            yield dict(name="redef-for-variable", d=d, u=u, expect=rexp, src=render({d: ["x := 5"], u: ["for x := 0; x < 1; x++ {", "}"]}))
             yield dict(name="redef-short-multi", d=d, u=u, expect=True if INFO.order[d] < INFO.order[u] else not visible(u, d),
                        src=render({d: ["x := 5"], u: ["x, zz9 := 6, 7"]}))
     # 2. parameters, loop-header and range variables
